@@ -86,12 +86,17 @@ def gen_insert(eng, rng, n, target="main"):
     named = rng.chance(0.8, "named") or kind == "common"
     if kind == "automatic" and not rng.chance(0.5, "autonamed"):
         named = False
-    if fam in XML_FAMILIES and fam != "font-face":
-        named = True
+    if fam in XML_FAMILIES:
+        named = True  # these definitions are addressed by name only: an unnamed one is not a valid input
     if named:
         # (style names are unique per family across common and automatic styles in ODF:
         # the two kinds draw from disjoint pools; both pools repeat across families)
         pool = ["simA", "simB", "Standard", "Heading_20_1"] if kind != "automatic" else ["P1", "T1", "odfdo_auto_2", "odfdo_auto_7", "ta1"]
+        if fam == "font-face":
+            # font faces are declared per part (content.xml and styles.xml each have their
+            # own office:font-face-decls, usually with the same names): separate pools, so
+            # that the document-level lookup has one candidate
+            pool = ["simFA", "simFB"] if kind == "default" else ["simFC", "simFD"]
         op["name"] = rng.choice(pool, "sname")
         op["name_via"] = rng.choice(["ctor", "arg"], "name_via")
     return op
